@@ -22,6 +22,23 @@ package interp
 //@   ensures otherwise-untouched: !(n.kind == binaryExpr && n.anc.kind == assignStmt && old(isEmptyInterface(n.anc.child[0].typ))) ==> n.anc.child[0].typ == old(n.anc.child[0].typ)
 
 //@ pred arith(a): a == aAdd || a == aAnd || a == aAndNot || a == aMul || a == aOr || a == aQuo || a == aRem || a == aShl || a == aShr || a == aSub || a == aXor
+//@ pred boolAction(a): a == aEqual || a == aNotEqual || a == aLower || a == aLowerEqual || a == aGreater || a == aGreaterEqual || a == aLand || a == aLor || a == aNot
+// Pre-order: an operand expression inherits the type its parent expression was given by the context — except
+// under a comparison or a logical operator, whose result type (bool) is not the type of its operands.
+//@ lit Interpreter.cfg case:binaryExpr#1 () ()
+//@   props C03 C02
+//@   opt safety = off
+//@   opt opaque-calls = *
+//@   opt opaque-havoc = none
+//@   requires [assume] n != nil && n.anc != nil && n.anc != n
+//@   ensures an-operand-of-a-comparison-does-not-inherit-its-type: (n.anc.kind == binaryExpr || n.anc.kind == unaryExpr || n.anc.kind == parenExpr) && boolAction(n.anc.action) ==> n.typ == old(n.typ)
+//@   ensures an-operand-of-an-arithmetic-expression-inherits-its-type: (n.anc.kind == binaryExpr || n.anc.kind == unaryExpr || n.anc.kind == parenExpr) && !boolAction(n.anc.action) && !boolAction(n.action) ==> n.typ == n.anc.typ
+//@ func isBoolAction(n) (r)
+//@   props C03 C02
+//@   opt safety = off
+//@   requires [assume] n != nil
+//@   ensures comparisons-and-logical-operators: r == (n.action == aEqual || n.action == aNotEqual || n.action == aLower || n.action == aLowerEqual || n.action == aGreater || n.action == aGreaterEqual || n.action == aLand || n.action == aLor || n.action == aNot)
+//@   modifies nothing
 //@ lit Interpreter.cfg case:binaryExpr#4 () ()
 //@   props C02 C12 C03
 //@   opt safety = off
@@ -29,6 +46,9 @@ package interp
 //@   opt opaque-havoc = none
 //@   opt record-calls = binaryExpr, compareConst
 //@   opt ignore-contracts = compareConst
+//@   -- the operands of a comparison do not take the type of its result (fixUntyped pushes the type of a node down
+//@   -- into its untyped operand expressions: bool would make `const m = 2*3 == 6` a conversion of 6 to bool)
+//@   opt call-guard:fixUntyped = !cmpAction(n.action)
 //@   requires [assume] n != nil && n.anc != nil && len(n.child) == 2 && n.child[0] != nil && n.child[1] != nil && len(n.anc.child) >= 2 && n.anc.child[0] != nil && n.anc.child[0] != n && n.anc.child[0] != n.child[0] && n.anc.child[0] != n.child[1] && n.anc != n && n.child[0] != n && n.child[1] != n
 //@   requires [assume] the-case-guard: n.kind == binaryExpr
 //@   requires [assume] interface-context-is-not-propagated-in-pre-order: n.typ == nil
